@@ -130,7 +130,7 @@ def crtbp_energy(state: Sequence[float], mu: float) -> float:
         logger.warning(f"Very close to a primary body: r1={r1}, r2={r2}")
     
     kin = 0.5 * (vx*vx + vy*vy + vz*vz)
-    pot = -(mu1 / r1) - (mu2 / r2) - 0.5*(x*x + y*y + z*z) - 0.5*mu1*mu2
+    pot = -(mu1 / r1) - (mu2 / r2) - 0.5*(x*x + y*y) - 0.5*mu1*mu2
     
     result = kin + pot
     logger.debug(f"Energy calculated: {result}")
@@ -338,7 +338,7 @@ def effective_potential(state: Sequence[float], mu: float) -> float:
         logger.warning(f"Very close to a primary body: r1={r1}, r2={r2}")
     
     U = gravitational_potential(state, mu)
-    U_eff = -0.5 * (x**2 + y**2 + z**2) + U
+    U_eff = -0.5 * (x**2 + y**2) + U
     logger.debug(f"Effective potential calculated: {U_eff}")
     
     return U_eff
